@@ -26,8 +26,15 @@ def canon(obj) -> str:
 # --------------------------------------------------------------------------- real model
 
 
+_DATA_NAMES: set = set()
+
+
+def _unwrap(args):
+    return tuple(i for i, a in enumerate(args) if a in _DATA_NAMES)
+
+
 def _fn(d):
-    return fexpr.compile_fn(d["e"], len(d["args"]))
+    return fexpr.compile_fn(d["e"], len(d["args"]), unwrap=_unwrap(d["args"]))
 
 
 def _coef(cj):
@@ -91,7 +98,7 @@ def apply_decl(m, kind, name, payload):
         m.add_surrogate(
             name,
             qss.Surrogate(
-                model=fexpr.compile_multi(payload["es"], len(payload["args"])),
+                model=fexpr.compile_multi(payload["es"], len(payload["args"]), unwrap=_unwrap(payload["args"])),
                 args=list(payload["args"]),
                 outputs=list(payload["outs"]),
                 stoichiometries={f: {c: _coef(cj) for c, cj in st} for f, st in payload["st"]},
@@ -104,9 +111,21 @@ def apply_decl(m, kind, name, payload):
 def build_model(content, rng=None):
     from mxlpy import Model
 
+    import pandas as pd
+
     m = Model()
-    for kind, name, payload in decl_sequence(content, rng):
-        apply_decl(m, kind, name, payload)
+    _DATA_NAMES.clear()
+    _DATA_NAMES.update(k for k, _ in content.get("data", []))
+    seq = decl_sequence(content, rng)
+    data = [("data", k, v) for k, v in content.get("data", [])]
+    # data sets are declared at random positions among the other declarations
+    for d in data:
+        seq.insert(rng.randrange(len(seq) + 1) if rng is not None else 0, d)
+    for kind, name, payload in seq:
+        if kind == "data":
+            m.add_data(name, pd.Series([fexpr.to_float(Fraction(payload))]))
+        else:
+            apply_decl(m, kind, name, payload)
     return m
 
 
@@ -401,7 +420,7 @@ class Spec:
         for k, v in self.data.items():
             base[k] = Fraction(v)
         val = self._resolver(base)
-        names = set(self.vars) | set(self.pars) | set(self.derived) | set(self.rxns) | {"time"}
+        names = set(self.vars) | set(self.pars) | set(self.derived) | set(self.rxns) | {"time"} | set(self.data)
         for s in self.surs.values():
             names |= set(s["outs"])
         return {n: val(n) for n in names}
@@ -465,7 +484,7 @@ class Spec:
         out = {"args": {"ok": []}, "fluxes": {"ok": []}, "rhs": {"ok": []}}
         for t, st in rows:
             env = self.at(dict(st), t)
-            out["args"]["ok"].append(sorted([k, rat_str(v)] for k, v in env.items() if k != "time"))
+            out["args"]["ok"].append(sorted([k, rat_str(v)] for k, v in env.items() if k != "time" and k not in self.data))
             out["fluxes"]["ok"].append(sorted([k, rat_str(env[k])] for k in self.flux_names()))
             d = self.rhs(dict(st), t)
             out["rhs"]["ok"].append(sorted([k, rat_str(d[k])] for k in self.vars))
@@ -497,7 +516,7 @@ class Spec:
             state = None if q[1] is None else dict(q[1])
             if kind == "args":
                 env = self.at(state, q[2])
-                return {"ok": sorted([k, rat_str(v)] for k, v in env.items())}
+                return {"ok": sorted([k, rat_str(v)] for k, v in env.items() if k not in self.data)}
             if kind == "fluxes":
                 env = self.at(state, q[2])
                 return {"ok": [[k, rat_str(env[k])] for k in self.flux_names()]}
@@ -518,7 +537,7 @@ class Spec:
 
 
 def gen_content(rng, *, n_vars=(1, 5), n_pars=(0, 4), n_comps=(1, 8), p_ia=0.3, p_sur=0.25,
-                p_time=0.2, shuffle=True, small=(1, 2, 3)):
+                p_time=0.2, shuffle=True, small=(1, 2, 3), p_data=0.0):
     """Random well-formed content, acyclic and complete by construction, declaration
     order shuffled afterwards."""
     nv = rng.randint(*n_vars)
@@ -540,6 +559,11 @@ def gen_content(rng, *, n_vars=(1, 5), n_pars=(0, 4), n_comps=(1, 8), p_ia=0.3, 
         pool.append(k)
     if rng.random() < p_time:
         pool.append("time")
+    data = []
+    if rng.random() < p_data:
+        for i in range(rng.randint(1, 2)):
+            data.append([f"dat{i}", str(rng.choice(small))])
+            pool.append(f"dat{i}")
     all_var_names = [f"x{i}" for i in range(nv)]
 
     def pick_args(lo=1, hi=3):
@@ -608,7 +632,10 @@ def gen_content(rng, *, n_vars=(1, 5), n_pars=(0, 4), n_comps=(1, 8), p_ia=0.3, 
     if shuffle:
         for lst in (vars_, pars, derived, rxns, surs):
             rng.shuffle(lst)
-    return {"vars": vars_, "pars": pars, "derived": derived, "rxns": rxns, "surs": surs}
+    out = {"vars": vars_, "pars": pars, "derived": derived, "rxns": rxns, "surs": surs}
+    if data:
+        out["data"] = data
+    return out
 
 
 def gen_state(rng, content, vals=(0, 1, 2, 3, 5)):
